@@ -97,7 +97,8 @@ class FunctionDocumentation(AbstractCommandDefinitionDocumentation):
     """
 
     def process(self, writer: RSTWriter) -> None:
-        param_list = self.params
+        # Copy: rendering must not change the entry itself
+        param_list = list(self.params)
         if self.has_kwargs:
             param_list.append("**kwargs")
         d = writer.directive(
@@ -115,7 +116,8 @@ class MacroDocumentation(AbstractCommandDefinitionDocumentation):
     """
 
     def process(self, writer: RSTWriter) -> None:
-        param_list = self.params
+        # Copy: rendering must not change the entry itself
+        param_list = list(self.params)
         if self.has_kwargs:
             param_list.append("**kwargs")
         d = writer.directive(
